@@ -302,3 +302,9 @@ func TestC01TwinsEnumerated(t *testing.T) {
 		}
 	}, c01Prop)
 }
+
+// TestC01CatchUp: the catch-up shape (a lagging replica alone with a Byzantine leader that hands out only the newest blocks, then the
+// network heals; see genC06CatchUp) under this property's oracle.
+func TestC01CatchUp(t *testing.T) {
+	common.Check(t, "C01", "TestC01CatchUp", 1200, 30000, genC06CatchUp, c01Prop)
+}
